@@ -62,6 +62,9 @@ CLAIMED["C18"] = ("metamorphic property testing over instrumentation configurati
 CLAIMED["C19"] = ("property testing of an in-memory language server over request histories: validity predicate for every returned range under UTF-16, and a differential resolution oracle (the document is executed with scope-tagged bindings and probes; go-to-definition must land on a binding of the scope the program actually read); independent line/character recomputation for error spans",
     "Exploration: every request answered, server stops after exit, every range valid for its document, definition agrees with the running program's scoping for every use site of generated shadowing-heavy documents (with non-ASCII text, CRLF), across didOpen/didChange/didClose histories.",
     "The generator's scope/tag bookkeeping and the harness LspContext (file map) are trusted; unanswered requests are inconclusive.", "DESIGN.md §5 C19")
+CLAIMED["C20"] = ("stress-based property testing with a sequential-equivalence oracle: generated per-thread workloads over shared frozen modules run in fresh processes under several thread schedules (barrier / staggered / over-subscribed / concurrent build), compared with each workload run alone; arenas poisoned on drop (hook H2)",
+    "Exploration: each thread's transcript must equal the transcript of the same workload run alone; any crash of a concurrent child is a violation. The OS schedule is perturbed, not controlled, so this is the weakest claim of the set.",
+    "Does not own the scheduler (loom/shuttle would need the atomics in the code under test replaced); first-use races are exercised by fresh processes.", "DESIGN.md §5 C20, §10")
 NOT_YET = {}
 
 def main():
